@@ -4,11 +4,10 @@ SPEC = {
     'coq_dir': 'C38',
     'claimed': False,
     'theorems': [
-        'C38_mutex_exclusive', 'C38_no_secret_while_locked', 'C38_window_invisible_under_mutex',
-        'C38_observed_unlocked_implies_unlock_before_refuted', 'C38_window_witness',
-        'C38_observed_unlocked_implies_unlock_before_partial',
-        'C38_secret_implies_unlock_before_refuted', 'C38_lost_lock_witness',
-        'C38_secret_implies_unlock_before_partial', 'C38_guards_satisfiable',
+        'C38_mutex_exclusive', 'C38_no_secret_while_locked', 'C38_setpasswd_leaves_flag',
+        'C38_observed_unlocked_implies_unlock_before', 'C38_secret_implies_unlock_before',
+        'C38_flag_clear_implies_unlock_before',
+        'C38_window_closed', 'C38_lock_survives_setpasswd', 'C38_concurrent_example',
         'C38_timeout_respected_seq', 'C38_unlocked_inside_timeout_seq', 'C38_timed_example',
     ],
     'allowed_axioms': [],
@@ -22,15 +21,16 @@ SPEC = {
             'Streams: seq (one request at a time, 4-70 steps); timed (real timers of 1-2 s, immediate expiry by negative / overflowing timeouts, '
             'observations >= 450 ms away from every deadline, planned clock kept within 200 ms or the case is generated again; 16 wallets in parallel); '
             'gate-guarded (a request is held inside its critical section at a DB operation while lock-free requests run and one mutex-taking request is '
-            'started and seen to wait; no status observer while a SetPasswd is held: every spec failure is a violation); gate-window (status observers '
-            'inside SetPasswd holds: may hit known finding 1); gate-window-witness (the deterministic reproduction of finding 1: wrong old password, '
-            'fresh process, held at the password-hash read); spin (requests run under a goroutine that reads IsWalletLocked in a loop; a test that tries '
-            'to see the transient state without any hold: only reads that began and ended during the call count); lost-lock-hammer (a test, 2 s quick / 15 s '
+            'started and seen to wait; no status observer while a SetPasswd is held); gate-window (status observers inside SetPasswd holds); '
+            'gate-window-witness (the deterministic schedule of former finding 1: wrong old password, fresh process, held at the password-hash read, '
+            'IsWalletLocked / GetWalletStatus asked meanwhile); spin (requests run under a goroutine that reads IsWalletLocked in a loop; a test that tries '
+            'to see a transient state without any hold: only reads that began and ended during the call count); lost-lock-hammer (a test, 2 s quick / 15 s '
             'thorough: one goroutine loops ProcWalletSetPasswd with a wrong old password on an unlocked wallet, the other calls ProcWalletLock and then '
-            'CheckWalletStatus; a status "unlocked" after the lock is known finding 2); dict (the password table). '
+            'CheckWalletStatus; a status "unlocked" after the lock is a violation: former finding 2); dict (the password table). In every stream every '
+            'spec failure is a violation (no open finding). '
             'non-trivial: seq = some request returned a stored secret; timed = an observation after an expired timeout; gate-guarded = a mutex-taking '
-            'request was seen waiting; gate-window / witness = a status observer ran while a SetPasswd was held; spin = the observer saw "unlocked" '
-            'during a SetPasswd on a locked wallet; hammer = the lock was undone at least once. distinct = distinct Gallina case terms',
+            'request was seen waiting; gate-window / witness = a status observer ran while a SetPasswd was held; spin = the observer completed a read '
+            'during a SetPasswd on a locked wallet; hammer = at least one lock trial ran. distinct = distinct Gallina case terms',
     'trusted_base': [
         'the model is a hand-written LTS of wallet.go / wallet_proc.go at the granularity: one mutex operation, one atomic load or CAS of '
         'isWalletLocked, one DB read, one batch write per step; Go atomics are sequentially consistent, sync.Mutex is a lock; time.AfterFunc / '
@@ -43,29 +43,26 @@ SPEC = {
         'a valid signature of the stored key and reports RSecret',
         'correspondence for interleavings is checked where the harness can force the schedule (holds at DB operations, one waiting request) and, '
         'for the spinning observer, as "every value seen during a call is a value the model can show during that call"; free-running races between '
-        'two adjacent atomic instructions (the load and the CAS in ProcWalletSetPasswd) cannot be forced from outside; for them the harness hammers the real '
-        'wallet and the check confirms that the model can show the observed outcome (C38_lost_lock_witness schedule)',
+        'two adjacent atomic instructions (ProcWalletLock against the flag test of ProcWalletSetPasswd) cannot be forced from outside; for them the harness '
+        'hammers the real wallet and every lock that does not stay in effect is a violation (schedule of C38_lock_survives_setpasswd)',
         'hook file /repo/common/db/creator_verif.go (add-only, build tag verif, shared with C37): lets wallet.New run on the holding memory DB',
         'Coq kernel + vm_compute (refutation witnesses, Examples, case evaluation)',
     ],
     'assumptions': [
-        'C38_observed_unlocked_implies_unlock_before_partial holds for schedules in which no IsWalletLocked / GetWalletStatus read falls between the '
-        'CAS and the restore of a ProcWalletSetPasswd that started on a locked wallet (no_obs_in_window) and no ProcWalletLock / timer CAS falls '
-        'between the load and the CAS of a ProcWalletSetPasswd (no_split_race); without the first the statement is false (known finding 1, reproduced '
-        'on the real wallet), without the second it is false in the model (C38_lost_lock_witness) and on the real wallet (known finding 2, reproduced by the hammer)',
+        'C38_observed_unlocked_implies_unlock_before and C38_secret_implies_unlock_before hold for EVERY schedule of atomic steps, without guards, since '
+        'chain33 66be1e2 (ProcWalletSetPasswd no longer clears and restores the lock flag; former findings C38-F1 / C38-F2, reproduced again when the commit is reverted)',
         'the timed statements (C38_timeout_respected_seq, C38_unlocked_inside_timeout_seq) are about quiescent histories (one request at a time, the timer '
         'function running as soon as it is due); Timeout <= 0 is not constrained by the timed oracle (0 = no timeout; the code expires small negative '
         'values at once and turns values below -9223372036 into a ~292-year timeout by int64 wrap-around, as the model does)',
     ],
     'manifest': {
-        'level_text': 'partial: for every schedule of atomic steps the mutex is exclusive, every request that returns a stored key, the seed or a '
-                      'signature has tested the flag under the mutex outside every SetPasswd window, and observers see "unlocked" only after a verified '
-                      'unlock with no lock / timeout / restart since, PROVIDED no lock-free observer reads inside a SetPasswd window (refuted otherwise: '
-                      'known finding 1, wrong old password included) and no lock / timer CAS splits SetPasswd\'s load and CAS (refuted otherwise: the '
-                      'lock is undone, known finding 2, reproduced on the real wallet)',
+        'level_text': 'full: for every schedule of atomic steps of arbitrarily many concurrent requests, timer expiries and restarts the mutex is exclusive, '
+                      'every request that returns a stored key, the seed or a signature has tested the flag under the mutex, no step of a password change '
+                      '(right or wrong old password) changes the lock flag, and every observer - lock-free or under the mutex - sees "unlocked" only after a '
+                      'verified unlock with no lock / timeout / restart since (chain33 66be1e2 repaired the two former refutations); timeouts: for quiescent histories',
         'level_note': 'hand-written step-level LTS of the wallet lock tied to the Go code by sequential, timed, held-at-DB-operation and '
                       'spinning-observer histories on a real wallet.Wallet; cryptography, DB and queue abstracted; no ticket plugin',
-        'technique': 'Coq proof (invariant by induction over arbitrary schedules of a step-level LTS, refutations by computed witness schedules) + '
+        'technique': 'Coq proof (invariant by induction over arbitrary schedules of a step-level LTS) + '
                      'in-kernel correspondence check against a real wallet.Wallet with forced interleavings',
     },
     'harness_timeout': {'quick': 400, 'thorough': 3000},
